@@ -1900,6 +1900,12 @@ class Interp:
                 return a * int(b.const)
             if isinstance(a, Lst) and isinstance(b, Lin) and b.is_const():
                 return Lst(a.items * int(b.const))
+            if isinstance(a, Tup) and isinstance(b, Lin) and b.is_const() and b.const.denominator == 1:
+                return Tup(a.items * int(b.const))
+            if isinstance(b, (Lst, Tup)) and isinstance(a, Lin) and a.is_const() and a.const.denominator == 1:
+                return type(b)(b.items * int(a.const))
+            if isinstance(b, str) and isinstance(a, Lin) and a.is_const() and a.const.denominator == 1:
+                return b * int(a.const)
             x, y = self.num(a, node), self.num(b, node)
             if y.is_const():
                 r = x.scale(y.const, ("*", x.tree, y.tree))
@@ -2428,6 +2434,18 @@ class Interp:
                     return v
                 return one(names[0]) if len(names) == 1 else Tup([one(k) for k in names])
             return PyFunc(agetter)
+        if n == "operator.pow":
+            return self.binop(ast.Pow(), args[0], args[1], node)
+        if n in ("operator.floordiv", "operator.mod"):
+            return self.binop(ast.FloorDiv() if n.endswith("floordiv") else ast.Mod(), args[0], args[1], node)
+        if n in ("operator.not_", "operator.truth"):
+            return (not self.truth(args[0])) if n.endswith("not_") else self.truth(args[0])
+        if n in ("operator.is_", "operator.is_not", "operator.contains"):
+            if n.endswith("contains"):
+                return self.compare(ast.In(), args[1], args[0], node)
+            return self.compare(ast.Is() if n.endswith("is_") else ast.IsNot(), args[0], args[1], node)
+        if n == "operator.abs":
+            return self.call_builtin(Builtin("abs"), [args[0]], {}, node)
         if n in ("operator.add", "operator.sub", "operator.mul", "operator.truediv", "operator.neg", "operator.lt", "operator.le", "operator.gt", "operator.ge", "operator.eq", "operator.ne"):
             nm = n.split(".")[1]
             if nm == "neg":
